@@ -25,6 +25,7 @@ from harness.lib.wire_common import vr
 COMPONENTS = ["wire"]
 CONSTS = ["wire", "wiregen"]  # "wiregen": the model terms regenerated from the AST (harness/consts/wiregen.py), proved equal to the hand-written model
 TRUSTED = [
+    "harness/lib/wire_translate.py (Python AST -> Lean translator for the typed, exception-raising functions of _util.py / kafkacodec.py; documented subset, nothing dropped silently except the guards it lists in the generated file) and the library primitives its terms are written in (Afkak/Wire/Primitives.lean + GenPrims.lean: struct pack/unpack/calcsize incl. %s repeat counts, slicing, encode/decode, dict/defaultdict, nativeString, the generator monad Y): the C0x_generated_*_eq_model obligations are about the terms it emits",
     "the Kafka protocol grammar as written in Afkak/Wire/Spec.lean (from the protocol guide) and, independently, in harness/sim/refcodec.py; the two are cross-checked on every run",
     "Afkak.Wire.Crc.crc32 (table-driven CRC-32 used to RUN the model) is compared with zlib.crc32 on every run; the theorems hold for any checksum function",
     "CPython struct / bytes slicing / dict ordering as modelled in Afkak/Wire/Primitives.lean; Python str is represented by its UTF-8 bytes",
@@ -786,8 +787,12 @@ def run(ctx, res):
                 merge(res, r)
     else:
         run_scenarios(ctx, res, generate(ctx.rng, QUICK))
-    xl_corpus(ctx, res)
-    xl_c04.stage(ctx, res, ctx.scale(1500, 24000))
+    from harness.lib.xl5_guard import guarded
+
+    # (a stage that trips over an implementation which no longer offers what it drives is a broken
+    # correspondence - exit 1, the other stages still run -, not a crash of the check)
+    guarded(res, "wire/xl-corpus", xl_corpus, ctx, res)
+    guarded(res, "wire/xl", xl_c04.stage, ctx, res, ctx.scale(1500, 24000))
     shrink_all(ctx, res)
     h = res.hist
     tot = lambda pre, v: sum(n for k, n in h.items() if k.startswith("verdict:" + pre) and k.endswith(":" + v))  # noqa: E731
